@@ -122,6 +122,31 @@ class FixedSampler:
         return iter(self.order)
 
 
+class TensorViewSampler(FixedSampler):
+    """side sampler that keeps its indices in ONE LongTensor and yields 0-dim views of it (what iterating a tensor does)"""
+
+    def __init__(self, M, order):
+        super().__init__(M, order)
+        import torch
+        self.t = torch.tensor(list(order), dtype=torch.long)
+
+    def __iter__(self):
+        self.passes += 1
+        return iter(self.t[i] for i in range(len(self.t)))
+
+
+def make_side(c):
+    kind = c.get("side_kind")
+    if kind == "tensor_views":
+        return TensorViewSampler(c["M"], side_order(c))
+    if kind == "kd_dist2":
+        import kappadata.samplers as ks
+        s_ = ks.DistributedSampler(_Src(c["M"]), num_replicas=2, rank=c["rank"], shuffle=False)
+        s_.passes = 0
+        return s_
+    return FixedSampler(c["M"], side_order(c), order_fn=(lambda p, c=c: side_order(c, p)) if c.get("rotating") else None)
+
+
 # ------------------------------------------------------------------------------------------------- spec generation
 def gen_geometry(rng, big=False):
     N = rng.choice([1, 2, 3, 4, 5, 6, 7, 8, 9, 10, 12, 15, 16, rng.randint(1, 40 if big else 24)])
@@ -195,6 +220,12 @@ def gen_configs(rng, g, multi_kind=True, max_cfg=4):
 
 def side_order(c, p=0):
     """the p-th pass of a side sampler; "rotating" samplers (shuffling / re-drawing ones) yield another order on every pass"""
+    if c.get("side_kind") == "kd_dist2":
+        # torch's DistributedSampler(shuffle=False) semantics for 2 replicas: pad by wrapping around, then every second index from `rank`
+        idx = list(range(c["M"]))
+        total = -(-c["M"] // 2) * 2
+        idx += idx[:total - c["M"]]
+        return idx[c["rank"]:total:2]
     if c.get("rotating") and p > 0:
         return random.Random(f"{c['order_seed']}/{p}").sample(range(c["M"]), c["n"])
     return random.Random(c["order_seed"]).sample(range(c["M"]), c["n"])
@@ -316,7 +347,7 @@ def build_real(g, budget, cfgs, main_seed, main_kind="rec", start=None, collator
         main = RecMainNoEpoch(g["M"], g["N"], main_seed, pos)
     else:
         main = make_real_main(main_kind, g, main_seed, pos)
-    sides = [FixedSampler(c["M"], side_order(c), order_fn=(lambda p, c=c: side_order(c, p)) if c.get("rotating") else None) for c in cfgs]
+    sides = [make_side(c) for c in cfgs]
     configs = [InterleavedSamplerConfig(sampler=s, every_n_epochs=c["every_n_epochs"], every_n_updates=c["every_n_updates"],
                                         every_n_samples=c["every_n_samples"], batch_size=c["batch_size"]) for s, c in zip(sides, cfgs)]
     kw = dict(main_sampler=main, batch_size=g["B"], configs=configs, drop_last=g["drop_last"], **budget)
